@@ -1938,7 +1938,9 @@ handle_include_directive(const string &args, const YYLTYPE &loc) {
     if (expr[0] == '"' && expr[expr.size() - 1] == '"') {
       filename = expr.substr(1, expr.size() - 2);
 
-      if (_infile->_parent == nullptr) {
+      // Note that _infile is null if the directive ended at the end of the
+      // top-level file, without a newline.
+      if (_infile == nullptr || _infile->_parent == nullptr) {
         // If we're currently processing a top-level file, record the include
         // directive.  We don't need to record includes from included files.
         _quote_includes.insert(filename);
@@ -1952,7 +1954,7 @@ handle_include_directive(const string &args, const YYLTYPE &loc) {
         angle_quotes = true;
       }
 
-      if (_infile->_parent == nullptr) {
+      if (_infile == nullptr || _infile->_parent == nullptr) {
         // If we're currently processing a top-level file, record the include
         // directive.  We don't need to record includes from included files.
         _angle_includes.insert(filename);
